@@ -375,6 +375,10 @@ def render(ctx, fa):
 
 
 def concat_any(ctx, a, b):
+    if type(a) is Str and a.s == '':
+        return b
+    if type(b) is Str and b.s == '':
+        return a
     if isinstance(a, NumStr) or isinstance(b, NumStr) or isinstance(a, FloatStr) or isinstance(b, FloatStr):
         if isinstance(a, (NumStr, FloatStr)) and b.s is not None:
             r = type(a).__new__(type(a)); Str.__init__(r)
